@@ -100,6 +100,13 @@ pub fn scripts(nodes: usize, all_pairs: bool) -> Vec<Script> {
             out.push(Script { ops: vec![(n, op.to_string())] });
         }
     }
+    // single operations with other argument shapes (not part of the pair menu): an amount, a
+    // value that starts with a number, keys that do not exist yet, an empty value
+    for n in 0..nodes {
+        for op in ["increment c 5", "set k 7 up", "set fresh brand-new", "remove nokey", "increment fresh", "set-safe fresh 3 v3", "set k"] {
+            out.push(Script { ops: vec![(n, op.to_string())] });
+        }
+    }
     // two operations: both on the primary (same session), and one per node
     let pairs: Vec<(&str, &str)> = if !all_pairs {
         vec![("set k v1", "set k v2"), ("set k v1", "set k v1"), ("set k v1", "remove k"), ("increment c", "increment c"), ("set k v1", "increment c"), ("set-safe k 1 s1", "set-safe k 1 s2"), ("remove k", "set k v2")]
@@ -125,7 +132,7 @@ pub fn scripts(nodes: usize, all_pairs: bool) -> Vec<Script> {
 pub fn run(run: &mut Run) {
     crate::net::init_sleep_sites();
     let quick = run.quick();
-    let deadline = std::time::Instant::now() + Duration::from_secs(if quick { 45 } else { 1500 });
+    let deadline = std::time::Instant::now() + Duration::from_secs(if quick { 90 } else { 1500 });
     // quick: 2 nodes, single operations and selected pairs; thorough: + all pairs on 2 nodes and
     // the quick script set on 3 nodes
     let mut plan: Vec<(usize, &'static str, Script)> = scripts(2, false).into_iter().map(|s| (2, "none", s)).collect();
@@ -154,7 +161,7 @@ pub fn run(run: &mut Run) {
         for sc in newer.iter() {
             plan.push((3, "newer", Script { ops: sc.iter().map(|(n, c)| (*n, c.to_string())).collect() }));
         }
-        plan.extend(scripts(2, true).into_iter().skip(16).map(|s| (2, "none", s)));
+        plan.extend(scripts(2, true).into_iter().skip(2 * (op_menu().len() + 7)).map(|s| (2, "none", s)));
     }
     let scs: Vec<Script> = plan.iter().map(|p| p.2.clone()).collect();
     let nodes = if quick { 2 } else { 3 };
